@@ -103,6 +103,7 @@ struct Shape {
     unsigned objs, arrs, elems;
     size_t slen, nlen;  // string payload length, name length of the deep field
     size_t blen;        // length of the bytes field of the outer object
+    unsigned embed;     // > 0: that bytes field holds a valid Binson object whose bytes field holds a valid object ... this many levels
 };
 
 // {"a":{"a":...{"a":[[...[ e1, e2, ... ]...]], "z": "<slen>" }...}} ; the innermost array holds `elems` elements cycling int/double/bool/string
@@ -140,6 +141,17 @@ static Value build(const Shape &sh) {
             b.has_name = true;
             b.name = Bytes(sh.nlen ? sh.nlen + 2 : 3, 'c');
             b.s = Bytes(sh.blen, 0xab);
+            if (sh.embed) {
+                Bytes inner{0x40, 0x14, 0x01, 'a', 0x10, 0x01, 0x41};
+                for (unsigned e = 1; e < sh.embed; e++) {
+                    Bytes o{0x40, 0x14, 0x01, 'a'};
+                    ref::put_int(o, 0x18, (int64_t)inner.size());
+                    o.insert(o.end(), inner.begin(), inner.end());
+                    o.push_back(0x41);
+                    inner = o;
+                }
+                b.s = inner;
+            }
             o.c.push_back(std::move(b));
         }
         cur = std::move(o);
@@ -277,9 +289,10 @@ static void scaling_case(Src &s) {
     base.slen = s.u8() % 16;
     base.nlen = 1 + s.u8() % 3;
     base.blen = s.u8() % 8;
+    base.embed = 0;
     // which dimensions are scaled, and how far
     uint8_t dims = s.u8();
-    if ((dims & 15) == 0) dims |= 1 + s.u8() % 15;
+    if ((dims & 31) == 0) dims |= 1 + s.u8() % 31;
     Shape mid = base, big = base;
     if (dims & 1) { mid.objs = base.objs + 20 + s.u8() % 40; big.objs = 200 + s.u8() % 55; }
     if (dims & 2) { mid.arrs = base.arrs + 20 + s.u8() % 40; big.arrs = 200 + s.u8() % 55; }
@@ -289,6 +302,8 @@ static void scaling_case(Src &s) {
         mid.nlen = base.nlen + 300; big.nlen = 20000 + s.u16() % 10000;
         mid.blen = base.blen + 1000; big.blen = 20000 + s.u16() % 40000;  // also in the text family: print/to_string format bytes one octet per libc call
     }
+    if (dims & 16) { base.embed = 1 + s.u8() % 3; mid.embed = 30 + s.u8() % 20; big.embed = 250 + s.u8() % 100; }
+    else mid.embed = big.embed = base.embed;
     if (!g_warm) {
         // one warm-up pass per entry point: lazy symbol resolution and stdio buffers cost stack only once
         Marks w;
@@ -318,7 +333,7 @@ static void scaling_case(Src &s) {
                     big.arrs, big.elems, big.slen, big.nlen, big.blen);
     }
     st.nontrivial(mix(mix(mix(base.objs, base.arrs), mix(big.objs, big.arrs)), mix(mix(big.elems, big.slen), dims)));
-    st.label(fmt("scaled:%s%s%s%s", dims & 1 ? "objects " : "", dims & 2 ? "arrays " : "", dims & 4 ? "elements " : "", dims & 8 ? "payload/name-length" : ""));
+    st.label(fmt("scaled:%s%s%s%s%s", dims & 1 ? "objects " : "", dims & 2 ? "arrays " : "", dims & 4 ? "elements " : "", dims & 8 ? "payload/name-length " : "", dims & 16 ? "embedded-documents" : ""));
     if (st.want_sample("scaling", 2))
         st.sample("scaling", fmt("base objs %u arrs %u elems %u slen %zu nlen %zu -> big objs %u arrs %u elems %u slen %zu nlen %zu; verify stack %zu/%zu/%zu B", base.objs, base.arrs,
                                  base.elems, base.slen, base.nlen, big.objs, big.arrs, big.elems, big.slen, big.nlen, mb.hw[E_VERIFY], mm.hw[E_VERIFY], mg.hw[E_VERIFY]));
